@@ -26,17 +26,22 @@ var regOnce sync.Once
 
 func harnessRegistry() {
 	regOnce.Do(func() {
-		tys := map[string]reflect.Type{"A": reflect.TypeOf(""), "B": reflect.TypeOf(0), "E": reflect.TypeOf(&firebolt.EventError{}), "N": nil}
-		for _, c := range []string{"A", "B", "E"} {
-			for _, p := range []string{"A", "B", "E", "N"} {
+		// Y, Z, I: distinct types that are assignable to one another ([]byte, a named []byte type, interface{}); the
+		// framework compares produced and consumed types for identity
+		tys := map[string]reflect.Type{"A": reflect.TypeOf(""), "B": reflect.TypeOf(0), "E": reflect.TypeOf(&firebolt.EventError{}), "N": nil,
+			"Y": reflect.TypeOf([]byte(nil)), "Z": reflect.TypeOf(namedBytes(nil)), "I": reflect.TypeOf((*interface{})(nil)).Elem()}
+		for _, c := range []string{"A", "B", "E", "Y", "Z", "I"} {
+			for _, p := range []string{"A", "B", "E", "N", "Y", "Z", "I"} {
 				node.GetRegistry().RegisterNodeType("t_"+c+"_"+p, func() node.Node { return nil }, tys[c], tys[p])
 			}
 		}
-		for _, p := range []string{"A", "B", "E"} {
+		for _, p := range []string{"A", "B", "E", "Y", "Z", "I"} {
 			node.GetRegistry().RegisterSourceType("s_"+p, func() node.Source { return nil }, tys[p])
 		}
 	})
 }
+
+type namedBytes []byte
 
 type cnode struct {
 	id, name     string
@@ -77,6 +82,9 @@ func genConfig(r *rng, n int, tier string, emit func(string)) {
 		"cfg s_A - 0 1 N a t_A_A 0 0 0 1 N h t_E_N 0 0 1 0 N hc t_A_A 0 0 0 0",                      // handler with children
 		"cfg s_A - 0 1 N a t_A_A 0 0 0 1 N h t_E_N 0 0 0 1 N hh t_E_N 0 0 0 0",                      // handler with handler
 		"cfg s_A - -3 1 N a t_A_A 0 0 0 1 N ~ zz 0 0 0 0",                                           // unregistered handler
+		"cfg s_Y - 0 2 N a t_Y_Z 0 0 1 0 N b t_Z_I 0 0 1 0 N c t_I_N 0 0 0 0 N d t_Z_N 0 0 0 0",   // second root consumes a type the source's is assignable to
+		"cfg s_Y - 0 1 N a t_Y_Y 0 0 1 0 N b t_I_A 0 0 0 0",                                         // child consumes interface{}
+		"cfg s_Z - 0 1 N a t_Z_Y 0 0 1 0 N b t_Z_A 0 0 0 0",
 	} {
 		emit(c)
 	}
@@ -93,14 +101,14 @@ func genConfig(r *rng, n int, tier string, emit func(string)) {
 		var all []*cnode
 		build = func(consumes string, depth int) *cnode {
 			idc++
-			produces := r.pickS("A", "A", "B", "B", "E")
+			produces := r.pickS("A", "A", "B", "B", "E", "Y", "Z", "I")
 			if pe(4) {
 				produces = "N"
 			}
 			cn := &cnode{id: fmt.Sprintf("n%d", idc), workers: r.intn(4), buf: r.intn(4)}
 			c := consumes
 			if pe(6) {
-				c = r.pickS("A", "B", "E")
+				c = r.pickS("A", "B", "E", "Y", "Z", "I", "Y", "Z", "I")
 			}
 			cn.name = "t_" + c + "_" + produces
 			if pe(3) {
@@ -145,7 +153,7 @@ func genConfig(r *rng, n int, tier string, emit func(string)) {
 			}
 			return cn
 		}
-		src := r.pickS("A", "B")
+		src := r.pickS("A", "B", "Y", "Z", "I")
 		nroots := r.intn(3) + 1
 		var roots []*cnode
 		for j := 0; j < nroots; j++ {
@@ -227,11 +235,16 @@ func (n *cnode) yaml(sb *strings.Builder, indent string, asList bool, envName *b
 	if n.id != "" {
 		fmt.Fprintf(sb, "%sid: %s\n", indent, n.id)
 	}
-	if n.workers != 0 {
+	// a size of 0 means "use the default": the key is omitted, written as an explicit 0, or left empty
+	if n.workers != 0 || (cfgSel/11)%3 == 1 {
 		fmt.Fprintf(sb, "%sworkers: %s\n", indent, workers)
+	} else if (cfgSel/11)%3 == 2 {
+		fmt.Fprintf(sb, "%sworkers:\n", indent)
 	}
-	if n.buf != 0 {
+	if n.buf != 0 || (cfgSel/13)%3 == 1 {
 		fmt.Fprintf(sb, "%sbuffersize: %d\n", indent, n.buf)
+	} else if (cfgSel/13)%3 == 2 {
+		fmt.Fprintf(sb, "%sbuffersize:\n", indent)
 	}
 	if n.handler != nil {
 		fmt.Fprintf(sb, "%serror_handler:\n", indent)
